@@ -272,7 +272,7 @@ func runStoreTrace(seed uint64, dir string, steps int) *storeTrace {
 		}
 		items := []term{}
 		for i := range txns {
-			items = append(items, P(txns[i], hintsAll[i]))
+			items = append(items, C("tx", txns[i], hintsAll[i]))
 		}
 		tr.Events = append(tr.Events, event{D: L(items...), O: []term{C("OExec", results, snap.term())}})
 	}
